@@ -132,6 +132,8 @@ def run(ctx):
             "whole_tree_statement_domain": len(in_base), "inside_D": len(in_dom),
             "rejected_by_D": len(refuted_outside_D), "requested_path_oracle_domain": len(in_paths),
             "multi_root_oracle_domain": len(in_multi),
+            "store_absolute_path": sum(1 for c in cases if c.get("store_abs")),
+            "on_disk": sum(1 for c in cases if c.get("on_disk")),
             "stat_consulting_extractors": sum(1 for c in cases if c.get("stat_req")),
             "symlinks_over_limit": sum(1 for c in cases if c.get("symlinks") and c.get("max_size")),
         },
